@@ -194,7 +194,7 @@ def run(ctx):
         mpc = mp.get_context("fork")
         # ================= tie (i): event sequences (own pool: patches cloudsync.sync.state.time with the C11 clock)
         t0 = time.time()
-        nseq = 3200 if ctx.quick else 48000
+        nseq = 2400 if ctx.quick else 48000
         with mpc.Pool(nw) as pool:
             # ---- corpus first
             parts = [seq_files[k::nw] for k in range(nw) if seq_files[k::nw]]
@@ -246,7 +246,7 @@ def run(ctx):
             distinct += len(seen)
         # ================= tie (ii): engine pairs (own pool: harness.engine.install)
         t0 = time.time()
-        npairs = 1600 if ctx.quick else 40000
+        npairs = 1100 if ctx.quick else 40000
         with mpc.Pool(nw, initializer=_pair_init) as pool:
             parts = [pair_files[k::nw] for k in range(nw) if pair_files[k::nw]]
             cres = [x for part in pool.map(_pair_corpus, parts) for x in part] if parts else []
